@@ -387,8 +387,11 @@ func ProcessIndexRequestPle(tsNow uint64, indexNameIn string, flush bool,
 	}
 
 	for _, ple := range pleArray {
-		ple.SetTimestamp(utils.ExtractTimeStamp(ple.GetRawJson(), &tsKey))
-		if ple.GetTimestamp() == 0 {
+		// Keep a timestamp that the caller already set from the event (e.g. OTLP),
+		// when the raw json has no timestamp of its own.
+		if tsMillis := utils.ExtractTimeStamp(ple.GetRawJson(), &tsKey); tsMillis != 0 {
+			ple.SetTimestamp(tsMillis)
+		} else if ple.GetTimestamp() == 0 {
 			ple.SetTimestamp(tsNow)
 		}
 	}
